@@ -98,6 +98,7 @@ func RunWorker(o WorkerOpts) int {
 	distinct := map[uint64]struct{}{}
 	start := time.Now()
 	lastProgress := start
+	ticks := 0
 	var curPlan atomic.Value
 	hs := &hangState{}
 	go watchdog(hs, &curPlan, o, out)
@@ -117,7 +118,17 @@ func RunWorker(o WorkerOpts) int {
 			break
 		}
 		if now := time.Now(); now.Sub(lastProgress) > 250*time.Millisecond {
-			emit(Msg{Type: "progress", Unit: u})
+			// a checkpoint: if this process dies, what it measured so far is not lost
+			ticks++
+			cp := *sum
+			cp.Distinct = nil
+			if ticks%20 == 0 {
+				for k := range distinct {
+					cp.Distinct = append(cp.Distinct, k)
+				}
+			}
+			cp.WallS = time.Since(start).Seconds()
+			emit(Msg{Type: "progress", Unit: u, Sum: &cp})
 			lastProgress = now
 		}
 		sub := 0
